@@ -571,11 +571,11 @@ def make_source(it):
     f = np.asarray(it["f"], dtype=float)
     if it["d"] is None:
         E = np.concatenate([np.zeros((1, len(f))), gen.product_array(len(f), it["alpha"])], axis=0)
-        return f, None, E
+        return f, None, E * it.get("scale", 1.0)
     idx = np.asarray(it["idx"], dtype=int)
     nu = int(idx.max()) + 1
     Ec = spectra_canon(it["family"], len(f), nu, it["alpha"])
-    return f, np.asarray(it["d"], dtype=float), Ec[:, :, idx]
+    return f, np.asarray(it["d"], dtype=float), Ec[:, :, idx] * it.get("scale", 1.0)
 
 
 def new_res():
@@ -756,6 +756,14 @@ def work_items(tier, seed):
                 items.append(dict(base, runner="interp", part="interp/product", api_offset=si, sample=(si == 2 and nd == 3),
                                   m0s=(True,) if quick else (False, True)))
                 items.append(dict(base, runner="rotate", part="rotate/product"))
+    # B2. the same products at extreme energy scales (Hs of 1e-9 m and 1e6 m): conservation is a relative statement
+    for (nf_, nd) in ((2, 3),):
+        for fname, f in [("log2", fams[0][1][:2]), ("lin2_hi", fams[1][1][-2:])]:
+            for si, (kind, dname, dst, idx) in enumerate(dir_sources(nd, seed, tier, few=True)[:2]):
+                for scale in (1e-20, 1e-16, 1e12):
+                    base = dict(f=f, d=dst, idx=idx, alpha=alpha, family="product", src_kind=kind, name="%s/%s" % (fname, dname), tier=tier, scale=scale)
+                    items.append(dict(base, runner="interp", part="interp/product-extreme-scale", api_offset=si, m0s=(True,)))
+                    items.append(dict(base, runner="rotate", part="rotate/product-extreme-scale"))
     # C. frequency-only spectra (no direction dimension), full product
     for fname, f in fams:
         f1 = f[:5] if quick else f
